@@ -1700,19 +1700,22 @@ func runSTOREALIAS(c *Ctx) {
 					return
 				}
 				x := expand(val, fr)
-				root := expand(sliceRoot(x.v), x.fr)
+				srcs, unknown := aliasSources(x.v, x.fr, 0)
+				aliased := false
+				for _, sv := range srcs {
+					if isRootParam(sv.v, sv.fr, 3) {
+						aliased = true
+					}
+				}
+				kept++
 				switch {
-				case isRootParam(root.v, root.fr, 3):
-					kept++
+				case aliased:
 					c.Violation(fr.fn, P.InstrPos(ins), "Store keeps the caller's slice",
 						fmt.Sprintf("%s puts its bytes parameter itself (%s) into %s: the stored node shares its backing array with the caller's buffer, so reusing the buffer after Store changes what a later Load returns", ir.FuncName(b.store), descFval(x), field))
+				case len(unknown) > 0:
+					c.Undecided(fr.fn, P.InstrPos(ins), "slice kept in "+field, "cannot establish that the slice kept in the receiver's state shares no memory with the caller's: it comes from "+strings.Join(uniq(unknown), "; "))
 				default:
-					if src, isCopy := copyOf(root.v); isCopy {
-						kept++
-						c.OK(P.InstrPos(ins), "value kept in "+field+" by "+ir.FuncName(fr.fn), "a private copy ("+descValue(src)+" copied)", false)
-					} else if _, isParam := root.v.(*ssa.Parameter); isParam {
-						c.Undecided(fr.fn, P.InstrPos(ins), "slice kept in "+field, "a slice parameter of a helper that the rule could not trace to Store's parameters is kept in the receiver's state")
-					}
+					c.OK(P.InstrPos(ins), "value kept in "+field+" by "+ir.FuncName(fr.fn), "a fresh slice (a complete copy or newly allocated), not the caller's", false)
 				}
 			})
 			if kept == 0 {
@@ -1737,22 +1740,30 @@ func runSTOREALIAS(c *Ctx) {
 			}
 			seen[sr.r] = true
 			x := expand(sr.vals[0], root)
-			base := expand(sliceRoot(x.v), x.fr)
-			if src, isCopy := copyOf(base.v); isCopy {
-				c.OK(P.InstrPos(sr.r), "data returned by "+ir.FuncName(fn), "a private copy of "+descValue(src), false)
+			srcs, _ := aliasSources(x.v, x.fr, 0)
+			if len(srcs) == 0 {
+				c.OK(P.InstrPos(sr.r), "data returned by "+ir.FuncName(fn), "a fresh slice (a private copy, or freshly read)", false)
 				continue
 			}
 			state := ""
-			switch y := base.v.(type) {
-			case *ssa.Extract:
-				if lk, ok := y.Tuple.(*ssa.Lookup); ok && y.Index == 0 {
-					state, _ = receiverState(lk.X, base.fr)
-				}
-			case *ssa.Lookup:
-				state, _ = receiverState(y.X, base.fr)
-			case *ssa.UnOp:
-				if y.Op == token.MUL {
-					state, _ = receiverState(y.X, base.fr)
+			for _, base := range srcs {
+				switch y := base.v.(type) {
+				case *ssa.Extract:
+					if lk, ok := y.Tuple.(*ssa.Lookup); ok && y.Index == 0 {
+						if f, ok := receiverState(lk.X, base.fr); ok {
+							state = f
+						}
+					}
+				case *ssa.Lookup:
+					if f, ok := receiverState(y.X, base.fr); ok {
+						state = f
+					}
+				case *ssa.UnOp:
+					if y.Op == token.MUL {
+						if f, ok := receiverState(y.X, base.fr); ok {
+							state = f
+						}
+					}
 				}
 			}
 			if state != "" {
@@ -2069,4 +2080,81 @@ func addrRoot(v ssa.Value) ssa.Value {
 		}
 	}
 	return v
+}
+
+// aliasSources lists the values whose backing array the slice v (in frame fr)
+// may share: reslices are stripped, complete copies and fresh allocations have
+// no source, a call of a repository helper has the sources of all its returns
+// (its parameters standing for the arguments). unknown names producers the
+// rule cannot classify (calls outside the repository that may return a
+// sub-slice of an argument).
+func aliasSources(v ssa.Value, fr *frame, d int) (srcs []fval, unknown []string) {
+	if d > 6 {
+		return nil, []string{"nesting too deep"}
+	}
+	x := expand(sliceRoot(v), fr)
+	if x.v != sliceRoot(x.v) {
+		return aliasSources(x.v, x.fr, d+1)
+	}
+	if _, isCopy := copyOf(x.v); isCopy {
+		return nil, nil
+	}
+	switch y := x.v.(type) {
+	case *ssa.Const, *ssa.MakeSlice, *ssa.Alloc:
+		return nil, nil
+	case *ssa.Phi:
+		for _, e := range y.Edges {
+			s2, u2 := aliasSources(e, x.fr, d+1)
+			srcs, unknown = append(srcs, s2...), append(unknown, u2...)
+		}
+		return
+	case *ssa.Call:
+		if b, isB := y.Call.Value.(*ssa.Builtin); isB && b.Name() == "append" {
+			return aliasSources(y.Call.Args[0], x.fr, d+1) // append may write into the first operand's array
+		}
+		if k := x.fr.child(y); k != nil {
+			n := 0
+			for _, r := range ir.Returns(k.fn) {
+				if len(r.Results) == 0 {
+					continue
+				}
+				n++
+				s2, u2 := aliasSources(r.Results[0], k, d+1)
+				srcs, unknown = append(srcs, s2...), append(unknown, u2...)
+			}
+			if n == 0 {
+				unknown = append(unknown, "helper "+callName(y)+" without a return")
+			}
+			return
+		}
+		switch staticID(y) {
+		case "os.ReadFile", "io/ioutil.ReadFile", "io.ReadAll", "io/ioutil.ReadAll", "(*bytes.Buffer).Bytes":
+			return nil, nil
+		}
+		if y.Call.IsInvoke() {
+			return nil, nil // the result of another store/service: that one's own contract
+		}
+		return nil, []string{"a call of " + callName(y)}
+	case *ssa.Extract:
+		if call, ok := y.Tuple.(*ssa.Call); ok {
+			if k := x.fr.child(call); k != nil {
+				n := 0
+				for _, r := range ir.Returns(k.fn) {
+					if y.Index < len(r.Results) {
+						n++
+						s2, u2 := aliasSources(r.Results[y.Index], k, d+1)
+						srcs, unknown = append(srcs, s2...), append(unknown, u2...)
+					}
+				}
+				if n == 0 {
+					unknown = append(unknown, "helper "+callName(call)+" without a return")
+				}
+				return
+			}
+			if _, isLk := y.Tuple.(*ssa.Lookup); !isLk {
+				return nil, nil // freshly produced by a library or service call (ReadFile, ReadAll, wrapped Load)
+			}
+		}
+	}
+	return []fval{x}, nil
 }
